@@ -403,7 +403,9 @@ class SymdelDB:
 
 
     def __init__(self, seqs, max_edits):
-        self.seqs = seqs
+        # positional copy: sequences are addressed by 0-based ordinal position,
+        # whatever the index labels of the caller's container
+        self.seqs = list(seqs)
         self.max_edits = max_edits
         self.variant_dict = {}
         for i, seq in enumerate(seqs):
@@ -463,7 +465,7 @@ class SymdelDB:
                 for j in self.variant_dict[comb]:
                     j_indices.add(j)
             for j in j_indices:
-                dist = custom_distance(seqs2[i], self.seqs[j])
+                dist = custom_distance(seq, self.seqs[j])
                 if dist > threshold:
                     continue
                 ans.append((i, j, dist))
@@ -544,7 +546,7 @@ def symdel(seqs, max_edits=1, max_returns=None, n_cpu=1,
             if len(values) == 1:
                 continue
             for i, j in combinations(values, 2):
-                dist = custom_distance(seqs[i], seqs[j])
+                dist = custom_distance(symdeldb.seqs[i], symdeldb.seqs[j])
                 if dist > threshold:
                     continue
                 ans.add((i, j, dist))
